@@ -12,6 +12,7 @@ decay_amplitudes_parsimonious single_spectrum_is_broadcast subset_is_slice trace
 neg_trace_cumulant infidelity_eq_neg_trace_cumulant infidelity_traceless_branch
 total_infidelity_nonneg pulse_correlations_sum_to_total infidelity_source_shape'''.split()
 LEAN_MODULES = ['FFVerif.Props.C08']
+PINS = ['pinIntegrate', 'pinIdentityElementIndex']
 GEN_SITES = ['einsum:numeric__get_integrand_', 'einsum:numeric_infidelity_0',
              'const:numeric.infidelity', 'const:numeric.calculate_decay_amplitudes']
 COMPONENTS = ['integrate', 'four_element_traces']
@@ -34,6 +35,12 @@ def correspondence(ctx):
     for i in range(6 if ctx.tier == 'quick' else 60):
         n = int(rng.integers(2, 12))
         x = np.sort(rng.uniform(-3, 3, n))
+        if i % 3 == 1:
+            # nearly uniform / tiny spacings: a grid in small units must be integrated like any other
+            x = np.sort(10.0**rng.uniform(-1, 1, n))*10.0**rng.uniform(-13, -7)
+        elif i % 3 == 2:
+            x = np.linspace(0, 1, n)*10.0**rng.uniform(-12, 3)
+            x[-1] *= 1 + 10.0**rng.uniform(-7, -1)
         f = rng.standard_normal(n) + 1j*rng.standard_normal(n)
         lines.append(f'integrate {n} {arr2bits(x)} {arr2bits(f)}')
         refs.append(np.array([util.integrate(f, x)]))
@@ -50,7 +57,7 @@ def correspondence(ctx):
     bad = {c: [] for c in COMPONENTS}
     for ln, ref, c, o in zip(lines, refs, comp, outs):
         got = bits2arr(o[3:], ref.shape, cplx=True) if o.startswith('ok ') else None
-        err = gens.abs_err(got, ref) if got is not None else np.inf
+        err = gens.abs_err(got, ref, 1e-300 if c == 'integrate' else 1.0) if got is not None else np.inf
         if not err <= 1e-9:
             bad[c].append((ln[:40], err, o[:30]))
     for c, v in bad.items():
@@ -71,7 +78,8 @@ def spectrum(rng, shape, n_nops, omega):
 def check_consistency(ctx, case):
     desc = case['desc']
     rng = np.random.default_rng(case['seed'])
-    omega = np.asarray(case['omega'], dtype=float)
+    omega = np.asarray(case['omega'], dtype=float)*float(case.get('scale', 1.0))
+    fl = 1e-12*min(1.0, float(case.get('scale', 1.0)))**2
     shape = int(case['shape'])
     d = desc['d']
     n = len(desc['n_opers'])
@@ -89,7 +97,7 @@ def check_consistency(ctx, case):
     # (the package keeps the real part: for the correct two-sided spectrum the integrand is real)
     integrand = integrand.real
     ref = np.trapz(integrand, omega, axis=-1)/(2*np.pi)
-    e = gens.abs_err(G, ref, 1e-12)
+    e = gens.abs_err(G, ref, fl)
     if not e <= 1e-9:
         probs.append(f'decay amplitudes differ from the trapezoid of conj(B) S B / 2pi by {e:.3g}')
     # infidelity = -tr K / d^2
@@ -97,14 +105,14 @@ def check_consistency(ctx, case):
     pu = gens.build_used(desc, hrng, 0.5, len(omega))
     infid = ff.infidelity(pu, S, omega)
     again = ff.infidelity(pu, S, omega)
-    if not gens.abs_err(again, infid, 1e-12) <= 1e-12:
+    if not gens.abs_err(again, infid, fl) <= 1e-12:
         probs.append('a second infidelity request on the same pulse gives another value')
     fresh = ff.infidelity(gens.build(desc), S, omega)
-    if not gens.abs_err(infid, fresh, 1e-12) <= 1e-9:
+    if not gens.abs_err(infid, fresh, fl) <= 1e-9:
         probs.append('infidelity of a pulse with a cache history differs from a fresh pulse')
     K = numeric.calculate_cumulant_function(pu, S, omega)
     trK = -np.trace(K, axis1=-2, axis2=-1)/d**2
-    e = gens.abs_err(infid, trK, 1e-12)
+    e = gens.abs_err(infid, trK, fl)
     if not e <= 1e-9:
         probs.append(f'infidelity differs from -tr K/d^2 by {e:.3g}')
     # option independence
@@ -119,11 +127,11 @@ def check_consistency(ctx, case):
     opts.append(('cache_intermediates', numeric.calculate_decay_amplitudes(
         gens.build(desc), S, omega, cache_intermediates=True)))
     for nm, val in opts:
-        e = gens.abs_err(val, G, 1e-12)
+        e = gens.abs_err(val, G, fl)
         if not e <= 1e-9:
             probs.append(f'decay amplitudes depend on option "{nm}" ({e:.3g})')
     i2 = ff.infidelity(gens.build(desc), S, omega, cache_intermediates=True)
-    if not gens.abs_err(i2, infid, 1e-12) <= 1e-9:
+    if not gens.abs_err(i2, infid, fl) <= 1e-9:
         probs.append('infidelity depends on cache_intermediates')
     # subsets / orders of identifiers
     ids_sorted = sorted(desc['n_ids'])
@@ -144,7 +152,7 @@ def check_consistency(ctx, case):
     else:
         want = (G[idx], infid[idx], K[idx])
     for nm, a, b in zip(('decay amplitudes', 'infidelity', 'cumulant function'), (Gs, Is, Ks), want):
-        if np.shape(a) != np.shape(b) or not gens.abs_err(a, b, 1e-12) <= 1e-9:
+        if np.shape(a) != np.shape(b) or not gens.abs_err(a, b, fl) <= 1e-9:
             probs.append(f'{nm} for identifiers {sel} is not the slice of the full result')
     # PSD spectrum => total infidelity >= 0
     tot = np.sum(infid).real
@@ -177,7 +185,12 @@ def check_pc_sum(ctx, case):
     c = ff.concatenate([gens.build(x) for x in descs], calc_pulse_correlation_FF=True, omega=omega)
     tot = ff.infidelity(c, S, omega)
     pc = ff.infidelity(c, S, omega, which='correlations')
-    e = gens.abs_err(pc.sum(axis=(0, 1)), tot, 1e-12)
+    # a second request on the same object (cached pulse-correlation quantities are reused) and the
+    # total again afterwards
+    pc2 = ff.infidelity(c, S, omega, which='correlations')
+    tot2 = ff.infidelity(c, S, omega)
+    e = max(gens.abs_err(pc.sum(axis=(0, 1)), tot, 1e-12), gens.abs_err(pc2, pc, 1e-12),
+            gens.abs_err(tot2, tot, 1e-12))
     ctx.count(('pc', case['seed'], d, tl_basis, shape))
     if not e <= 1e-9:
         ctx.fail('pc_infidelities_sum', case, {'err': e}, 0, {},
@@ -208,7 +221,8 @@ def search(ctx, deep=False):
                               features=feats, basis=bs[int(rng.integers(0, len(bs)))])
         omega = gens.rand_omega_grid(rng, int(rng.integers(4, 14)), two_sided=bool(rng.integers(0, 2)))
         check_consistency(ctx, {'desc': desc, 'omega': omega, 'shape': int(rng.integers(1, 4)),
-                                'seed': int(rng.integers(0, 2**31))})
+                                'seed': int(rng.integers(0, 2**31)),
+                                'scale': [1.0, 1.0, 1e-10, 1e-7, 1e3][int(rng.integers(0, 5))]})
         if i % 3 == 0:
             check_pc_sum(ctx, {'seed': int(rng.integers(0, 2**31)), 'd': d,
                                'traceless_basis': bool(rng.integers(0, 2)),
